@@ -159,15 +159,13 @@ func vFastShiftFourMer(index [][]int, shifts *map[int]int, lindex int, seq *obis
 	return vFastShift, vFastCount, 0.5
 }
 
-func VerifC08_Fast(la, lb, delta int) {
-	if la < 1 || lb < 1 {
+func VerifC08_Fast(la, lb, delta, shift int) {
+	if la < 4 || lb < 4 || shift < -(lb-4) || shift > la-4 {
 		vSkip()
 		return
 	}
-	shift, count := 0, 0
-	if la >= 4 && lb >= 4 {
-		shift, count = vInt(-(lb - 4), la-4), vInt(0, la)
-	}
+	// the offset is concrete per instance (it decides every slice bound), the hit count is symbolic
+	count := vInt(0, la)
 	a, b := vBytes(la, "acgt"), vBytes(lb, "acgt")
 	qa, qb := vBytes(la, "\x0a\x14\x28"), vBytes(lb, "\x0a\x14\x28")
 	if !vSymbolic() {
